@@ -99,6 +99,20 @@ pub mod verif_funcs {
         get_seconds::get_seconds,
     };
 
+    /// typed overloads behind the multi-argument dispatchers
+    pub mod inner {
+        pub use super::super::math::pow::verif_inner as pow;
+        pub use super::super::time_funcs::{
+            get_date::verif_inner as get_date, get_day_of_month::verif_inner as get_day_of_month,
+            get_day_of_week::verif_inner as get_day_of_week,
+            get_day_of_year::verif_inner as get_day_of_year,
+            get_full_year::verif_inner as get_full_year, get_hours::verif_inner as get_hours,
+            get_milliseconds::verif_inner as get_milliseconds,
+            get_minutes::verif_inner as get_minutes, get_month::verif_inner as get_month,
+            get_seconds::verif_inner as get_seconds,
+        };
+    }
+
     pub fn min(this: CelValue, args: Vec<CelValue>) -> CelValue {
         super::min_impl(this, args)
     }
